@@ -8,7 +8,7 @@ from vf.runner import Acc, filler
 PROPERTY = "C13"
 CONCUR_FILES = ('bits/script/utils.py', 'bits/utils.py')
 # (thread a, thread b), warm-up: indices into seq_ops() - the ordinary single-case checks run concurrently (vf/concur.py)
-CONCUR_SCEN = [((0, 1), ()), ((4, 4), (1,)), ((2, 9), (6,)), ((10, 11), (7,))]
+CONCUR_SCEN = [((0, 1), ()), ((4, 4), (1,)), ((2, 9), (6,)), ((10, 11), (7,)), ((0, 1, 4), ())]   # the last one: three threads
 LEVEL = "exploration"
 RULE = ("programs over the defined opcode set (read from bits.script.constants at run time) and data items: every single "
         "opcode; every data length 1..600 (thorough ..1000) and {65535,65536,70000}; (opcode,data)/(data,opcode) pairs for 6 "
@@ -255,7 +255,7 @@ def run_job(job):
         return run_concur_job(job, scens, run_case, PROPERTY, CONCUR_FILES)
     if job["part"] == "seq":
         from vf.runner import run_seq_job
-        return run_seq_job(job, seq_ops(job), run_case)
+        return run_seq_job(job, seq_ops(job), run_case, depth=3 if job["tier"] == "quick" else 4)
     acc = Acc(job)
     seed, tier, part = job["seed"], job["tier"], job["part"]
     ops = opcodes()
